@@ -1,4 +1,53 @@
 import PeptVerif.Model.Proto
-/-! driver for C11 (placeholder: replies bad-op to everything until the model is written) -/
-def step (_line : String) : String := "bad-op"
-def main : IO Unit := Proto.runDriver step
+import PeptVerif.Model.Annotation
+import PeptVerif.Model.Reorder
+/-! driver for C11: slice / reverse / shift / shuffle / sort / split on field dumps -/
+open Proto Pept Pept.Reorder
+
+def showRes : Except Err Annotation → String
+  | .ok a => Wire.showAnnotation a
+  | .error e => e.show
+
+def parseNatList? (s : String) : Option (List Nat) :=
+  if s.isEmpty then some [] else (s.splitOn ",").mapM (·.toNat?)
+
+/-- `perm` must be a permutation of `0..n-1` (the result of `random.shuffle` on the positions) -/
+def isPermOfRange (perm : List Nat) (n : Nat) : Bool :=
+  perm.length == n && (List.range n).all (fun i => perm.contains i)
+
+def showResidue (p : Char × List Mod) : String :=
+  Wire.esc [p.1] ++ ":" ++ Wire.showModsWith "&" p.2
+
+def step (line : String) : String :=
+  match splitTab line with
+  | ["slice", a, s, e, inpl] =>
+    match Wire.parseAnnotation? a, parseOptInt? s, parseOptInt? e, parseBool? inpl with
+    | some a, some s, some e, some inpl => Wire.showAnnotation (sliceOpt a s e inpl)
+    | _, _, _, _ => "bad-op"
+  | ["reverse", a, swap] =>
+    match Wire.parseAnnotation? a, parseBool? swap with
+    | some a, some swap => Wire.showAnnotation (reverse a swap)
+    | _, _ => "bad-op"
+  | ["shift", a, k] =>
+    match Wire.parseAnnotation? a, parseInt? k with
+    | some a, some k => showRes (shift a k)
+    | _, _ => "bad-op"
+  | ["shuffle", a, perm] =>
+    match Wire.parseAnnotation? a, parseNatList? perm with
+    | some a, some perm => if isPermOfRange perm a.seq.length then showRes (shuffle a perm) else "bad-op"
+    | _, _ => "bad-op"
+  | ["sort", a] =>
+    match Wire.parseAnnotation? a with
+    | some a => showRes (sortResidues a)
+    | _ => "bad-op"
+  | ["split", a] =>
+    match Wire.parseAnnotation? a with
+    | some a => "~".intercalate ((split a).map Wire.showAnnotation)
+    | _ => "bad-op"
+  | ["residues", a] =>
+    match Wire.parseAnnotation? a with
+    | some a => ";".intercalate ((residues a).map showResidue)
+    | _ => "bad-op"
+  | _ => "bad-op"
+
+def main : IO Unit := runDriver step
